@@ -299,6 +299,61 @@ theorem C18_final (c : Cfg) (nodes : List Node) (cpn : Nat) (reach : List Nat) (
 
 /-! ## PBSPro: nodes from the `exec_vnode` attribute -/
 
+/-- **with backup nodes only nodes whose reachability probe answered are used** - for tasks, sub-agents
+    and services alike; a probe that is refused or hangs (no return code, also after it was cancelled)
+    leaves its node out -/
+theorem C18_probed (c : Cfg) (nodes : List Node) (cpn : Nat) (reach : List Nat) (info : Info)
+    (hb : c.backup ≠ 0) (h : finish c nodes cpn reach = .ok info) :
+    ∀ n ∈ info.nodeList ++ info.agentNodes ++ info.serviceNodes, n.name.id ∈ reach := by
+  unfold finish at h
+  split at h
+  · cases h
+  split at h
+  · cases h
+  split at h
+  · cases h
+  split at h
+  · cases h
+  split at h
+  · cases h
+  split at h
+  · cases h
+  split at h
+  · cases h
+  rename_i hlen hrn0
+  cases h
+  simp only
+  generalize hcut : (reachable c (blockNodes c nodes) reach).take (reqNodes c cpn) = cut at *
+  have hcl : c.agentNodes + c.serviceNodes < cut.length := by omega
+  have ⟨a1, a2⟩ := popN_spec cut c.agentNodes (by omega)
+  generalize hp1 : popN cut c.agentNodes = p1 at *
+  obtain ⟨rest, ag⟩ := p1
+  simp only at a1 a2 ⊢
+  have hrest : rest.length = cut.length - c.agentNodes := by
+    have := congrArg length a1
+    simp only [length_append, length_reverse] at this
+    omega
+  have ⟨s1, _s2⟩ := popN_spec rest c.serviceNodes (by omega)
+  generalize hp2 : popN rest c.serviceNodes = p2 at *
+  obtain ⟨rest2, sv⟩ := p2
+  simp only at s1 ⊢
+  have hall : rest2 ++ sv.reverse ++ ag.reverse = cut := by rw [s1, a1]
+  have hmem : ∀ n ∈ cut, n.name.id ∈ reach := by
+    intro n hn
+    rw [← hcut] at hn
+    have hn' := (take_sublist _ _).subset hn
+    unfold reachable at hn'
+    rw [if_pos hb] at hn'
+    simpa using (mem_filter.mp hn').2
+  intro n hn
+  apply hmem
+  rw [← hall]
+  simp only [mem_append, mem_reverse] at hn ⊢
+  rcases hn with (hn | hn) | hn
+  · exact Or.inl (Or.inl hn)
+  · exact Or.inr hn
+  · exact Or.inl (Or.inr hn)
+
 /-- a strictly increasing list has no duplicates -/
 theorem strictSorted_lt_head (x : Nat) (l : List Nat) (h : RPVerif.Launch.StrictSorted (x :: l)) : ∀ y ∈ l, x < y := by
   induction l generalizing x with
